@@ -1,17 +1,16 @@
 \* generated by gensync.py - edit there
-SPECIFICATION PSpec
+SPECIFICATION Spec
 CONSTANTS
  Clients = {1, 2}
  Creators = {1}
- Subscribers = {2}
+ Subscribers = {}
  OtherType = {}
  MaxPre = 0
- MaxOps = 1
- MaxSends = 3
+ MaxOps = 2
+ MaxSends = 5
  MaxServes = 1
  MaxApplies = 1
  Faults = FALSE
- Mutations = {"crossDuid", "crossDuidCreate", "crossDuidSubscribe", "crossDuidSubCreate", "crossCollection", "sameKeyOtherCollection", "resetOther", "resetOwn"}
 INVARIANT LogNoRepeats
 INVARIANT LogEndRecorded
 INVARIANT PerClientOrder
@@ -22,6 +21,5 @@ INVARIANT ClientCpWithinLog
 INVARIANT QuiescentAgreement
 INVARIANT OneDatatype
 PROPERTY CpMonotone
-VIEW PStateView
-ACTION_CONSTRAINT EdgeDump
+VIEW StateView
 CHECK_DEADLOCK FALSE
